@@ -52,6 +52,9 @@ CLAIMED = {
  'C10': dict(
    text="Proof over the reals: every member of Direction / PlanarDirection that writes the stored vector (found by scanning the lowered bodies; the base classes expose no public writer) leaves |d|^2 == 1 or d == 0 - unit length for non-zero input, zero for zero input, parallel to and pointing the same way as the input, invariant under positive rescaling; for all 17 vector quantity types Magnitude() has the scalar type of the same declared dimension set and the Euclidean norm as value, typed accessors return the matching component, and Q(q.Magnitude(), q.Direction()) == q for |q| > 0 (z3 nlsat).  Bit-precise (CBMC contracts on Set): the zero vector gives exactly +0 components; each component keeps the sign of the input component.",
    ref="DESIGN.md 5 C10", note="The 'four ulps' constant and 'exactly for power-of-two factors' are NOT machine-checked (REAL semantics; 5 roundings on the normalisation path). The sign obligation uses the libm sqrt contract (r > 0 for x > 0) instead of CBMC's sqrt model."),
+ 'C15': dict(
+   text="Proof for every value of float, double and long double: PhQ::Print<T> (instantiated body; ostringstream as a ghost record of notation/precision/items) inserts for x == 0 the literal 0 and otherwise the value once, in fixed notation with precision max_digits10+1-(1+floor(log10|x|)) for 0.001 <= |x| < 10000 and scientific with max_digits10 otherwise - decided exactly (the body only compares; z3 over the reals outside the intervals between each decimal threshold and the literal compared with, each shown by exact arithmetic to contain no value of the type); the largest value below each decade cannot carry into the next at the precision used (so exactly max_digits10+1 significant digits); Print/JSON/XML/YAML of the four tensor classes and all ten Dimensional*/Dimensionless* bases (76 forms, with and without unit) consist of exactly one number token per stored component in declared order (converted component-wise when a unit is given) plus literals and the abbreviation of that unit, JSON/XML skeletons parse; operator<< inserts exactly Print().",
+   ref="DESIGN.md 5 C15, 12.5", note="Assumed library contracts: glibc prints p correctly rounded digits; strto* correctly rounded (parse-back). KNOWN FINDING (genuine, long double only, listed in known_findings.txt): Print<long double> compares with double literals 0.1, 0.01, 0.001, so long double values in [0.1, 0.1d) etc. get one digit too many / the wrong notation."),
 }
 REASONS = {'C19': "static-initialisation order is a property of the compilers' start-up schedule, not of any function's pre/postcondition; CBMC has no model of C++ dynamic initialisation and contracts cannot express it (DESIGN.md 6)"}
 checks = []
